@@ -1,7 +1,7 @@
 #!/usr/bin/env python3
 """Expands /*INSTANCES*/ in vec.rs into one #[kani::proof] per (operation, element type, shape)."""
 import sys
-TY = {"u8": "u8", "u64": "u64", "z": "Z", "d": "D"}
+TY = {"u8": "u8", "u64": "u64", "z": "Z", "d": "D", "zd": "Zd"}
 QUICK = [(0, 0), (1, 1), (2, 3)]
 THOROUGH = [(l, c) for l in range(0, 5) for c in (l, l + 2)] + [(5, 5), (5, 7), (6, 6)]
 def instances(tier):
@@ -11,11 +11,14 @@ def instances(tier):
         if tier == "quick" and tn == "u8":
             continue
         for (l, c) in shapes:
+            if tn == "zd" and (l, c) not in [(0, 0), (2, 3)]:
+                continue
             sfx = f"{tn}_{l}_{c}"
             out.append(f"inst!(p_push_{sfx}, check_push, {t}, {l}, {c});")
             out.append(f"inst!(p_pop_{sfx}, check_pop, {t}, {l}, {c});")
             out.append(f"inst!(p_insert_{sfx}, check_insert, {t}, {l}, {c});")
-            out.append(f"inst!(p_clone_{sfx}, check_clone, {t}, {l}, {c});")
+            if tn != "zd":  # <[T]>::to_vec over a zero-sized non-Copy type does not terminate under CBMC (std code, not CVec's)
+                out.append(f"inst!(p_clone_{sfx}, check_clone, {t}, {l}, {c});")
             for n in ([1, 2] if tier == "quick" else ([0, 1, 2, 5] if tn in ("u64", "d") else [1])):
                 if tier == "quick" and tn == "z" and n == 2: continue
                 out.append(f"inst!(p_reserve_{sfx}_n{n}, check_reserve, {t}, {l}, {c}, {n});")
